@@ -208,13 +208,17 @@ def value_hash(root, skip_hidden=True):
 
 
 def mutable_ids(root):
-    """identities (with a path) of the mutable objects reachable from root"""
+    """identities (with a path) of the mutable objects reachable from root: lists, dicts, sets,
+    bytearrays, arrays (and the arrays they are views of), XML elements and trees, and instances
+    that have a __dict__.  Immutable values, classes, functions and modules are not objects a
+    document can be contaminated through and are skipped."""
     seen = {}
+    visited = set()
     stack = [(root, '')]
     while stack:
         x, path = stack.pop()
         if isinstance(x, ATOMIC) or isinstance(x, (numpy.generic, type, types.ModuleType, types.FunctionType,
-                                                   types.BuiltinFunctionType)):
+                                                   types.BuiltinFunctionType, frozenset)):
             continue
         if isinstance(x, types.MethodType):
             x = x.__self__
@@ -222,43 +226,48 @@ def mutable_ids(root):
             if isinstance(x, (type, types.ModuleType)):
                 continue
         k = id(x)
-        if k in seen:
+        if k in visited:
             continue
+        visited.add(k)
         if isinstance(x, tuple):
             for i, c in enumerate(x):
                 stack.append((c, '%s[%d]' % (path, i)))
             continue
-        if isinstance(x, frozenset):
+        if type(x).__module__.split('.')[0] in ('zipfile', 'io', '_io', 'threading', '_thread', 'datetime', 'dateutil'):
             continue
-        seen[k] = (path, x)
         if isinstance(x, numpy.ndarray):
-            b = x.base
-            if b is not None:
-                stack.append((b, path + '@base'))
+            seen[k] = (path, x)
+            if x.base is not None:
+                stack.append((x.base, path + '@base'))
             continue
         if is_tree(x):
+            seen[k] = (path, x)
             stack.append((x.getroot(), path + '/'))
             continue
         if is_element(x):
+            seen[k] = (path, x)
             for i, c in enumerate(x):
                 stack.append((c, '%s/%d' % (path, i)))
             continue
-        if isinstance(x, list):
-            for i, c in enumerate(x):
-                stack.append((c, '%s[%d]' % (path, i)))
+        if isinstance(x, (list, bytearray)):
+            seen[k] = (path, x)
+            if isinstance(x, list):
+                for i, c in enumerate(x):
+                    stack.append((c, '%s[%d]' % (path, i)))
         elif isinstance(x, dict):
+            seen[k] = (path, x)
             for q, v in x.items():
                 stack.append((q, '%s{key}' % path))
                 stack.append((v, '%s{%s}' % (path, scrub(repr(q)))))
             continue
         elif isinstance(x, set):
+            seen[k] = (path, x)
             for q in x:
                 stack.append((q, path + '{elem}'))
             continue
         d = getattr(x, '__dict__', None)
         if isinstance(d, dict):
+            seen[k] = (path, x)
             for a, v in d.items():
                 stack.append((v, '%s.%s' % (path, a)))
-        if isinstance(x, types.FunctionType):
-            continue
     return seen
